@@ -1,2 +1,151 @@
+//! C18: the recorded schema describes the bytes written.
+
 use super::*;
-pub fn c18(_ctx: &Ctx, _subj: &dyn DynSubject, _ty: &Ty, _rep: &mut Report) {}
+use vmodel::val::GenCfg;
+
+struct Row {
+    field: String,
+    offset: usize,
+    size: usize,
+    align: usize,
+    padding: bool,
+}
+
+pub fn c18(ctx: &Ctx, subj: &dyn DynSubject, ty: &Ty, rep: &mut Report) {
+    let strat = strategy_for(ctx, ty, GenCfg::default());
+    crate::runner::run_cases(ctx, subj, rep, strat, ctx.cases, &|v, log| {
+        self_check(subj, v)?;
+        classify(ctx, ty, v, log);
+        let (plain, _) = ser_bytes(subj, v)?;
+        let enc = model_enc(ctx, subj, ty, v)?;
+        let mut a: Vec<u8> = Vec::new();
+        let schema = match guard(|| subj.ser_schema(v, &mut a)) {
+            Err(p) => return Err(Fail::new(&format!("schema-panic:{}", panic_class(&p)), format!("serialize_with_schema panicked: {}", p))),
+            Ok(Err(e)) => return Err(Fail::new("schema-error", format!("serialize_with_schema failed: {:?}", e))),
+            Ok(Ok(s)) => s,
+        };
+        if a.len() != plain.len() || (a.len() == enc.mask.len() && !same_masked(&enc, &a, &plain)) {
+            return Err(Fail::new("schema-bytes-differ", format!("schema recording wrote {} bytes, plain serialization {} (or contents differ)", a.len(), plain.len())));
+        }
+        let rows: Vec<Row> = schema.0.iter().map(|r| Row { field: r.field.clone(), offset: r.offset, size: r.size, align: r.align, padding: r.field == "PADDING" }).collect();
+        let n = rows.len();
+        let is_ext = |child: &str, parent: &str| child.len() > parent.len() && child.starts_with(parent) && child.as_bytes()[parent.len()] == b'.';
+        // composite = some later non-padding row (contiguously) extends the path
+        let next_real = |i: usize| (i + 1..n).find(|j| !rows[*j].padding);
+        let composite: Vec<bool> = (0..n).map(|i| !rows[i].padding && next_real(i).map_or(false, |j| is_ext(&rows[j].field, &rows[i].field))).collect();
+        // (a) tiling by a running cursor
+        let mut cursor = 0usize;
+        let mut before = vec![0usize; n];
+        let mut after = vec![0usize; n];
+        for i in 0..n {
+            let r = &rows[i];
+            before[i] = cursor;
+            if r.offset != cursor {
+                return Err(Fail::new("schema-gap-or-overlap", format!("row {} ({}) starts at {}, but the rows before it end at {}", i, r.field, r.offset, cursor)));
+            }
+            if r.offset + r.size > a.len() {
+                return Err(Fail::new("schema-out-of-stream", format!("row {} ({}) covers {}..{} of a {}-byte stream", i, r.field, r.offset, r.offset + r.size, a.len())));
+            }
+            if !composite[i] {
+                cursor += r.size;
+            }
+            after[i] = cursor;
+        }
+        if cursor != a.len() {
+            return Err(Fail::new("schema-incomplete", format!("leaf rows cover {} bytes of a {}-byte stream", cursor, a.len())));
+        }
+        // (b) parents precede children and contain them; composite extents equal their descendants' span
+        let mut n_comp2 = 0;
+        for i in 0..n {
+            if rows[i].padding {
+                continue;
+            }
+            if let Some(dot) = rows[i].field.rfind('.') {
+                let parent = &rows[i].field[..dot];
+                let Some(pi) = (0..i).rev().find(|j| rows[*j].field == parent) else {
+                    return Err(Fail::new("schema-orphan", format!("row {} ({}) has no earlier parent row {}", i, rows[i].field, parent)));
+                };
+                let p = &rows[pi];
+                if rows[i].offset < p.offset || rows[i].offset + rows[i].size > p.offset + p.size {
+                    return Err(Fail::new("schema-not-contained", format!("row {} ({}) {}..{} is not inside its parent {}..{}", i, rows[i].field, rows[i].offset, rows[i].offset + rows[i].size, p.offset, p.offset + p.size)));
+                }
+            }
+            if composite[i] {
+                // descendants: following rows while non-padding rows extend the path
+                let mut last = i;
+                let mut kids = 0;
+                let mut j = i + 1;
+                while j < n {
+                    if rows[j].padding {
+                        j += 1;
+                        continue;
+                    }
+                    if is_ext(&rows[j].field, &rows[i].field) {
+                        last = j;
+                        if rows[j].field[rows[i].field.len() + 1..].find('.').is_none() {
+                            kids += 1;
+                        }
+                        j += 1;
+                    } else {
+                        break;
+                    }
+                }
+                if kids >= 2 {
+                    n_comp2 += 1;
+                }
+                // trailing padding rows may belong to this composite or to the next sibling
+                let mut hi = last;
+                while hi + 1 < n && rows[hi + 1].padding {
+                    hi += 1;
+                }
+                let end = rows[i].offset + rows[i].size;
+                if end < after[last] || end > after[hi] {
+                    return Err(Fail::new("schema-composite-extent", format!("composite row {} ({}) ends at {}, its children end at {}", i, rows[i].field, end, after[last])));
+                }
+            }
+        }
+        // (c) padding rows and zero rows
+        let mut n_pad = 0;
+        for i in 0..n {
+            let r = &rows[i];
+            if r.padding {
+                n_pad += 1;
+                if r.size == 0 {
+                    return Err(Fail::new("schema-empty-padding", format!("padding row {} is empty", i)));
+                }
+                if a[r.offset..r.offset + r.size].iter().any(|b| *b != 0) {
+                    return Err(Fail::new("schema-padding-nonzero", format!("padding row {} covers non-zero bytes", i)));
+                }
+                let Some(z) = rows.get(i + 1).filter(|z| z.field.ends_with(".zero") || z.field == "zero") else {
+                    return Err(Fail::new("schema-padding-not-before-block", format!("padding row {} is not followed by a zero-copy block row", i)));
+                };
+                if z.align == 0 || r.size >= z.align || (r.offset + r.size) % z.align != 0 {
+                    return Err(Fail::new("schema-padding-extent", format!("padding row {} ({} bytes ending at {}) does not pad to the alignment {} of the next block", i, r.size, r.offset + r.size, z.align)));
+                }
+            } else if r.field.ends_with(".zero") {
+                if r.align == 0 || !r.align.is_power_of_two() || r.offset % r.align != 0 {
+                    return Err(Fail::new("schema-block-misaligned", format!("block row {} ({}) at {} with recorded alignment {}", i, r.field, r.offset, r.align)));
+                }
+            }
+        }
+        log.nontrivial = n_comp2 > 0 && n_pad > 0;
+        if n_pad > 0 {
+            log.classes.push("has-padding-row".into());
+        }
+        log.classes.push(format!("rows-{}", if n < 16 { "lt16" } else if n < 64 { "lt64" } else { "ge64" }));
+        log.sample = Some(sample_json(subj, v, Some(&a), json!({"rows": n, "padding_rows": n_pad, "first_rows": rows.iter().take(12).map(|r| json!([r.field, r.offset, r.size, r.align])).collect::<Vec<_>>() })));
+        // (d) renderings
+        match guard(|| (schema.to_csv(), schema.debug(&a))) {
+            Err(p) => return Err(Fail::new(&format!("schema-render-panic:{}", panic_class(&p)), format!("rendering the schema panicked: {}", p))),
+            Ok((csv, dbg)) => {
+                if csv.lines().count() != n + 1 {
+                    return Err(Fail::new("schema-csv-lines", format!("to_csv has {} lines for {} rows", csv.lines().count(), n)));
+                }
+                if dbg.lines().count() < n + 1 {
+                    return Err(Fail::new("schema-debug-lines", format!("debug has {} lines for {} rows", dbg.lines().count(), n)));
+                }
+            }
+        }
+        Ok(())
+    });
+}
